@@ -342,7 +342,7 @@ class InitEccAuthBlock(AuthBlock):
     ) -> bytes:
         encryptor = self.select_encryptor(
             ext_encryptors,
-            fallback_encryptor=EccEncryptor(),
+            fallback_encryptor=EccEncryptor(self.key_selector),
             encryptor_filter=lambda e: e.key_selector == self.key_selector,
         )
         return self.key_selector.to_bytes(1, "big") + encryptor.encrypt(session_key)
